@@ -5,4 +5,6 @@ Cls2 == <<0, 0>>
 Typ2 == <<16, 17>>
 Cls3 == <<0, 0, 1>>
 Typ3 == <<16, 17, 16>>
+ErrAll == Bytes \X (Bytes \cup {0})
+ErrFew == {<<64, 64>>, <<64, 0>>}
 =============================================================================
